@@ -22,6 +22,7 @@ type in struct {
 	wasKilled           chan bool
 	hasProc             bool
 	procNo              int // counts the started helper processes
+	listenerNo          int // counts the calls of Listen that set a listener
 	listener            func(data []byte, deltamillisecs int32)
 }
 
@@ -170,8 +171,17 @@ func newIn(driver *Driver, number int, name string) drivers.In {
 }
 
 func (i *in) Listen(onMsg func(msg []byte, absmilliseconds int32), conf drivers.ListenConfig) (stopFn func(), err error) {
+	var listenerNo int
+
 	stopFn = func() {
 		if !i.IsOpen() {
+			return
+		}
+		// a stop function only stops its own listener, not one that was set later
+		i.RLock()
+		stale := i.listenerNo != listenerNo
+		i.RUnlock()
+		if stale {
 			return
 		}
 		i.shouldStopListening <- true
@@ -195,6 +205,8 @@ func (i *in) Listen(onMsg func(msg []byte, absmilliseconds int32), conf drivers.
 
 	//var rd = drivers.NewReader(config, onMsg)
 	i.Lock()
+	i.listenerNo++
+	listenerNo = i.listenerNo
 	i.listener = func(data []byte, absmilliseconds int32) {
 		//rd.EachMessage(data, deltamillisecs)
 		//rd.EachMessage(data, -1)
